@@ -73,6 +73,12 @@ ACCEPTOR = {
     'abort-close': [('P', [('RQ',)]), ('U', 'AC', ()), ('P', [('MSG', 1, 1, [1, 1]), ('AB', [2, 5])]), ('FIN',)],
     'release-data': [('P', [('RQ',)]), ('U', 'AC', ()), ('U', 'RLRQ', ()), ('P', [('MSG', 1, 1, [1, 1]), ('RLRP',)])],
     # a message of the peer begun while established is completed after the local user has asked for release (Sta7)
+    # release collision, acceptor side: in Sta12 (peer's release response received, local response awaited) the peer
+    # sends something it must not send any more
+    'collision-then-data': [('P', [('RQ',)]), ('U', 'AC', ()), ('U', 'RLRQ', ()), ('P', [('RLRQ',)]), ('P', [('RLRP',)]),
+                            ('P', [('MSG', 1, 0, [1])]), ('FIN',)],
+    'collision-then-garbage': [('P', [('RQ',)]), ('U', 'AC', ()), ('U', 'RLRQ', ()), ('P', [('RLRQ',), ('RLRP',), ('UNK',)]), ('FIN',)],
+    'many-pipelined': [('P', [('RQ',)]), ('U', 'AC', ()), ('P', [('MSG', 1, 0, [1])] * 24), ('P', [('UNK',)]), ('FIN',)],
     'release-mid-message': [('P', [('RQ',)]), ('U', 'AC', ()), ('P', [('MSGA', 1, 2, [1, 1, 1], 1)]), ('U', 'RLRQ', ()),
                             ('P', [('MSGB',), ('RLRP',)])],
     # the peer keeps talking after the PDU that ended the association for the provider (awaiting close, Sta13)
@@ -130,7 +136,7 @@ class Played(object):
 
 
 def play(script, req, cuts=(), dribble=False, waiting=False, fin_at=None, stop_silent=False, mutate=None, eager_fin=False, hard=False,
-         tick_after_fin=True, max_iter=4000):
+         tick_after_fin=True, max_iter=4000, local_max=65536, lazy_user=False):
     """Play a script.
     cuts: absolute offsets in the peer's byte stream at which a segment boundary falls (besides the
           natural one after each peer write); dribble: one byte per segment.
@@ -142,7 +148,8 @@ def play(script, req, cuts=(), dribble=False, waiting=False, fin_at=None, stop_s
           with the write (it becomes visible as soon as the last byte has arrived).
     mutate: (index of peer PDU, fn(frame, bytes) -> [(frame or None, bytes)]) replaces that PDU.
     Returns a Played with .run (Run), .outcome."""
-    run = Run(req)
+    run = Run(req, local_max)       # local_max: the provider's own maximum PDU length = the size of its reads
+    run.p.lazy_user = lazy_user     # lazy_user: the local user does not take its indications while the script runs
     ids = {'m': 0}
     sent = 0
     written = 0
